@@ -68,7 +68,16 @@ def expected_tree(ref, lim, cn, pos, names):
                         [(ref.ncell[l][cx], ref.ncell[l][cy]) for l in range(lim + 1)], boxes, data, mins, maxs)
 
 
-def run_slice(mods, ref, fields, limit, serial, cn, ctx, canary=False, concrete_pos=None, prior=()):
+def cli_argv(fields, limit, serial, cn, pos, out):
+    argv = ['mandoline', 'plt', '--normal', str(cn), '--position', repr(float(pos)), '--variables'] + list(fields) + ['--format', 'plotfile', '--output', out]
+    if limit is not None:
+        argv += ['--max_level', str(limit)]
+    if serial:
+        argv += ['--serial']
+    return argv
+
+
+def run_slice(mods, ref, fields, limit, serial, cn, ctx, canary=False, concrete_pos=None, prior=(), cli=False):
     Mandoline = mods['amr_kitchen.mandoline.mandoline'].Mandoline
     Taster = mods['amr_kitchen.taste.taste'].Taster
     lim = ref.nlev - 1 if limit is None else limit
@@ -89,14 +98,28 @@ def run_slice(mods, ref, fields, limit, serial, cn, ctx, canary=False, concrete_
             fields, limit, serial, '; '.join('m.slice(normal=%d, pos=%r, fformat="return")' % (pn, c07.prior_pos(ref, pn)) for pn in prior), cn)
     with patch.Patched(mods, fs), common.quiet():
         try:
-            m = Mandoline('plt', fields=list(fields), limit_level=limit, serial=serial, verbose=0)
+            if cli:
+                # the command-line entry point (argparse wiring of -n / -p / -v / -L / -s / -f / -o); concrete position
+                import sys
+                what = ' '.join(cli_argv(fields, limit, serial, cn, pos, 'out2d'))
+                old_argv = sys.argv
+                sys.argv = cli_argv(fields, limit, serial, cn, pos, 'out2d')
+                try:
+                    mods['amr_kitchen.mandoline.cli'].main()
+                finally:
+                    sys.argv = old_argv
+            m = None if cli else Mandoline('plt', fields=list(fields), limit_level=limit, serial=serial, verbose=0)
             for pn in prior:
                 # a history on one retained object: a slice along another normal, returned in memory, comes first
                 try:
                     m.slice(normal=pn, pos=c07.prior_pos(ref, pn), fformat='return')
                 except Exception:
                     pass
-            m.slice(normal=cn, pos=pos, outfile='out2d', fformat='plotfile')
+            if not cli:
+                m.slice(normal=cn, pos=pos, outfile='out2d', fformat='plotfile')
+        except SystemExit as e:
+            obl.fail('%s exited with %r' % (what, e.code))
+            return obl
         except Exception as e:
             obl.fail('%s raised %s: %s' % (what, type(e).__name__, str(e)[:100]))
             return obl
@@ -176,6 +199,28 @@ def run_case(case):
                 if sig not in viol:
                     viol[sig] = {'signature': sig, 'what': msg[:400], 'args': [fields, limit, serial, cn], 'pos': posv, 'model': m}
 
+    # the command line, concrete positions: a finest-level cell centre and a point between two centres, with a level limit
+    fin = ref.nlev - 1
+    for j, (cn, limit, serial) in enumerate([(0, None, True), (1, max(0, ref.nlev - 2), False), (2, None, False)]):
+        lim = fin if limit is None else limit
+        k = ref.ncell[lim][cn] // 2
+        posv = ref.lo[cn] + (k + (0.5 if j % 2 == 0 else 0.875)) * ref.dx[lim][cn]
+        if posv >= ref.hi[cn]:
+            posv = ref.lo[cn] + 0.5 * ref.dx[lim][cn]
+        fields = fl[1]
+
+        def cpath(ctx, fields=fields, limit=limit, serial=serial, cn=cn, posv=posv):
+            return run_slice(mods, ref, fields, limit, serial, cn, ctx, concrete_pos=posv, cli=True)
+        results, exhaustive, stats = core.explore(cpath, max_paths=16)
+        res.add_explore(results, exhaustive, stats)
+        npaths += stats['paths']
+        for ctx, obl in results:
+            res.add_obl(obl)
+            if obl.failed and not ctx.flags:
+                msg, model = obl.failed[0]
+                sig = 'C16/cli/normal%d/%s' % (cn, 'limit' if limit is not None else 'finest')
+                if sig not in viol:
+                    viol[sig] = {'signature': sig, 'what': msg[:400], 'args': [fields, limit, serial, cn], 'pos': posv, 'model': model or ctx.model(), 'cli': True}
     # histories on one retained object
     for prior, cn in ([((2,), 0), ((0,), 1)] if common.TIER == 'quick' else [((2,), 0), ((0,), 1), ((1, 0), 2)]):
         fields, limit, serial = fl[1], None, True
@@ -246,6 +291,11 @@ def make_replay(ref, v):
            "    for pn, pp in %r:\n        try:\n            m.slice(normal=pn, pos=pp, fformat='return')\n        except Exception:\n            pass\n"
            "    m.slice(normal=%d, pos=%r, outfile=OUT, fformat='plotfile')\n"
            % (list(fields), limit, serial, v.get('prior') or [], cn, posv))
+    if v.get('cli'):
+        run = ("import sys, contextlib, io\nfrom amr_kitchen.mandoline import cli\n"
+               "junk = [np.full((64, 64), 1.2345e5) for _ in range(64)]\ndel junk\n"
+               "sys.argv = ['mandoline', os.path.join(IN, 'plt')] + %r + ['--output', OUT]\n"
+               "with contextlib.redirect_stdout(io.StringIO()):\n    cli.main()\n" % (cli_argv(fields, limit, serial, cn, posv, 'x')[2:-2],))
     return replay_lib.make_tool_replay('C16', v['signature'], v['what'], {'plt': (fs, '/work/plt')}, run,
                                        {'kind': 'tree', 'tree_exp': exp, 'compare': 'close'}, val=val)
 
